@@ -41,6 +41,20 @@ ASSUMPTIONS = [
     "journal row under the next outbound number - C05's invariant); dead_peer_disconnected and both liveness "
     "theorems need no such assumption (a failed send still records the id / is swallowed)",
     "application hooks (on_state_change, on_disconnect, on_message) return normally",
+    "every duration in C12 is read on the connection's own clock, time.time(): 'within the allowed time' = before a "
+    "tick at which time.time() exceeds the time of the probe's SENDING by more than 2h (and nothing valid arrived for "
+    "2h on that clock). A clock step or a starved timer task that makes that much clock time pass while a probe is "
+    "outstanding costs the peer its time - dropping it then is consistent with the property; what must never happen is "
+    "a teardown in the very tick that sends the probe, or with nothing outstanding while a frame arrived within 2h. "
+    "A teardown is judged premature only if the peer had less than its time on BOTH clocks (time.time() and real "
+    "elapsed time): after a BACKWARDS step a later frame stamps an earlier _message_last_time than the probe did, and "
+    "the 'message last time' test may then drop a peer whose probe looks young on the stepped clock although more than "
+    "2h have really passed (observed on the clean tree, h = 5, clock stepped back 15 s while a probe was outstanding) "
+    "- consistent with the property. "
+    "The step theorems (no_outstanding_tick_never_disconnects, outstanding_tick, live_peer_spared) hold for ANY tick "
+    "times - forwards jumps, backwards steps, a standing clock; only the 'how soon' bounds (testreq_sent, "
+    "dead_peer_disconnected) assume tick gaps <= delta. The scenarios feed such clocks: one gap of h+1 .. 100h at the "
+    "first tick / around the probe / anywhere, clock steps of the same sizes forwards and backwards, a standing clock",
     "the heartbeat interval is the constructor's heartbeat_period, an integer number of seconds in the model and the "
     "theorems (every h >= 1); the library never adopts the HeartBtInt(108) of the peer's Logon (an acceptor echoes it "
     "back but watches with its own configured period) - a deviation from FIX noted in the report, not a C12 violation; "
@@ -75,7 +89,7 @@ def make_spec(h, peer, gaps, phase, t0_off=0, tie="tick", role=1, counters=(5, 7
 
 
 def spec_delta(spec):
-    return max(max(spec["gaps"]), spec["phase"])
+    return max([max(spec["gaps"]), spec["phase"]] + [abs(ms) for _k, _kind, ms in spec.get("clock", [])])
 
 
 def stamp_of(now_ms):
@@ -329,10 +343,22 @@ def _run_scenario(impl: S.Impl, spec):
     a = S.with_journal(a, spec["journal"])
     a.state = spec.get("state", 17)   # 10 RESENDREQ_HANDLING / 11 RECV_SEQNUM_TOO_HIGH / 12 RESENDREQ_AWAITING
     impl.load(a)
-    peer = Peer(spec, t0)
+    peer = Peer(spec, t0)      # the peer lives in MONOTONIC scenario time
     gaps, gi = spec["gaps"], 0
     next_tick = t0 + spec["phase"]
+    for k_, kind_, ms_ in spec.get("clock", []):
+        if k_ == 0 and kind_ == "stall":
+            next_tick = t0 + ms_
     end = t0 + spec["horizon"]
+    # the connection's clock: time.time() = monotonic time + offset.  spec["clock"] = [[k, kind, ms], ...]:
+    #   "stall": the k-th watchdog tick comes `ms` after the previous one instead of the grid's gap (timer task
+    #            starved / host suspended: one tick gap of h+1 .. 100h);  "step": from the k-th tick on the clock
+    #            shows `ms` more (negative: it was stepped backwards);  "still": the k-th tick reads the same time as
+    #            the previous one (the clock stands still across ticks)
+    clock = {}
+    for k_, kind_, ms_ in spec.get("clock", []):
+        clock.setdefault(k_, []).append((kind_, ms_))
+    offset, prev_tick_wall = 0, None
     line = []
     pre = impl.dump()
     cur = a
@@ -340,9 +366,10 @@ def _run_scenario(impl: S.Impl, spec):
     while True:
         due = peer.next_due()
         if due is not None and (due < next_tick or (due == next_tick and spec["tie"] == "recv")):
-            now, _, act = peer.pop()
-            if now > end:
+            mono, _, act = peer.pop()
+            if mono > end:
                 break
+            now = mono + offset
             if act["op"] == "fillto":
                 out = ("4", [(123, "Y"), (43, "Y"), (122, stamp_of(now)), (36, str(act["to"]))], act["begin"])
             else:
@@ -355,11 +382,12 @@ def _run_scenario(impl: S.Impl, spec):
             if spec.get("bytes"):
                 if cur.sock:   # a closed transport delivers nothing
                     for step in feed_bytes(impl, ev, spec["bytes"]["chunk"], pre, cur):
+                        step["mono"] = mono
                         line.append(step)
                         for e in step["eff"]:
                             if e.startswith("W="):
                                 mt, fs = S.parse_msg_tok(e[2:])
-                                peer.saw_frame(now, mt, fs)
+                                peer.saw_frame(mono, mt, fs)
                         pre, cur = step["post"], step["a_post"]
                 if cur.state <= 3 or not cur.sock:
                     after_down += 1
@@ -367,22 +395,34 @@ def _run_scenario(impl: S.Impl, spec):
                         break
                 continue
         else:
-            now = next_tick
-            if now > end:
+            mono = next_tick
+            if mono > end:
                 break
+            for kind_, ms_ in clock.get(gi, []):
+                if kind_ == "step":
+                    offset += ms_
+                elif kind_ == "still" and prev_tick_wall is not None:
+                    offset = prev_tick_wall - mono
+            now = mono + offset
+            prev_tick_wall = now
             ev = ("tick", now)
             kind = "tick"
-            next_tick += gaps[gi % len(gaps)]
+            gap = gaps[gi % len(gaps)]
+            for kind_, ms_ in clock.get(gi + 1, []):
+                if kind_ == "stall":
+                    gap = ms_
+            next_tick += gap
             gi += 1
         del impl.eff[:]
         impl.apply("all", ev)
         eff, post = impl.effects(), impl.dump()
         nxt = parse_post(post)
-        line.append({"t": now, "kind": kind, "ev": ev, "pre": pre, "eff": eff, "post": post, "a_pre": cur, "a_post": nxt})
+        line.append({"t": now, "mono": mono, "kind": kind, "ev": ev, "pre": pre, "eff": eff, "post": post, "a_pre": cur,
+                     "a_post": nxt})
         for e in eff:
             if e.startswith("W="):
                 mt, fs = S.parse_msg_tok(e[2:])
-                peer.saw_frame(now, mt, fs)
+                peer.saw_frame(mono, mt, fs)
         pre, cur = post, nxt
         if cur.state <= 3 or not cur.sock:
             after_down += 1
@@ -519,6 +559,20 @@ def all_specs(rng, n):
                                                             [9900, 100, 10100, 100, 100, 100], [100, 12000, 4000, 100, 100, 100]]))
             if h <= 2 and i % 25 in (1, 2):
                 out[-1]["peer"]["pads"] = [100, 70000, 100, 100, 100, 100, 100, 100]
+        # clock dimension: every 4th scenario has a tick gap that no small delta bounds (h+1 .. 100h, at the first
+        # tick, around the probe, later), or a clock that is stepped forwards / backwards or stands still
+        if i % 4 == 3:
+            H_ = h * 1000
+            nprobe = max(0, ((h - 1) * 1000 - phase) // gaps[0] + 1)     # index of the tick that probes a silent peer
+            k = rng.choice([0, 1, nprobe, nprobe + 1, nprobe + 2, nprobe + 2 * (H_ // gaps[0]), rng.randrange(0, 3 * (H_ // gaps[0]) + 4)])
+            J = rng.choice([H_ + 1000, H_ + 1125, 2 * H_, 2 * H_ + 125, 3 * H_, 100 * H_])
+            kind = rng.choice(["stall", "stall", "step", "step", "back", "still"])
+            if kind == "back":
+                out[-1]["clock"] = [[max(1, k), "step", -rng.choice([125, 1000, H_, 2 * H_ + 125, 3 * H_])]]
+            elif kind == "still":
+                out[-1]["clock"] = [[max(1, k) + j, "still", 0] for j in range(rng.choice([1, 3]))]
+            else:
+                out[-1]["clock"] = [[k, kind, J]]
         if peer["kind"] in ("silent", "periodic", "burst") and not peer.get("answer") and i % 3 == 0:
             v = state_variants(rng, h)
             out[-1]["state"] = v["state"]
@@ -581,7 +635,7 @@ def correspondence(ctx):
         impl.close()
     dis, bad = [], set()
     dist = {"h": {}, "peer": {}, "outcome": {}, "event": {}, "effect": {}, "start_state": {}, "tick_in_state": {},
-            "transport": {}, "frame_bytes": {}}
+            "transport": {}, "frame_bytes": {}, "clock": {}}
 
     def inc(d, k):
         dist[d][k] = dist[d].get(k, 0) + 1
@@ -607,6 +661,8 @@ def correspondence(ctx):
         inc("h", str(spec["h"]))
         inc("start_state", str(spec.get("state", 17)))
         inc("transport", f"bytes/{spec['bytes']['chunk']}" if spec.get("bytes") else "decoded")
+        ck = spec.get("clock")
+        inc("clock", "steady" if not ck else ("back" if ck[0][2] < 0 else ck[0][1]) + (":first-tick" if ck[0][0] == 0 else ""))
         p = spec["peer"]
         inc("peer", p["kind"] + ("+answer:" + p["answer"].get("flavour", "right") if p.get("answer") else ""))
         inc("outcome", outcome(line))
@@ -629,7 +685,9 @@ def correspondence(ctx):
                 "quiet-but-responsive, chatty and silent peers; the peer keeps its own counter and serves our "
                 "ResendRequests by gap fill / replay / never} x {transport: decoded frames handed to "
                 "_process_message | bytes through the real socket_read_task in reads of <= 4096 / 1500 / 700 bytes} x "
-                "{application frame sizes 100 B .. 70 KiB} x {h also 60 and 3600 s on coarse tick grids} x {tick gap "
+                "{application frame sizes 100 B .. 70 KiB} x {h also 60 and 3600 s on coarse tick grids} x {clock: steady | one tick gap of h+1 .. 100h "
+                "(stall) at the first tick / around the probe / anywhere | the clock stepped forwards or backwards by "
+                "such amounts | standing still across ticks} x {tick gap "
                 "patterns 1000..1875 ms} x {phase of the grid relative to the last frame} x {sub-second offset of t0, "
                 "tick-or-frame first on ties, role, counters, journal shape}; every event of every scenario is one "
                 "evaluation (real coroutine vs. model from the same pre-state, effects with SendingTime + full "
@@ -655,6 +713,7 @@ def judge(spec, line):
     delta = spec_delta(spec)
     t0 = T0 + spec["t0_off"]
     last_arrival = t0      # time of the last valid inbound frame (the scripted peer only sends valid ones)
+    last_arrival_m = t0    # … in real (monotonic) time; differs from the clock's view only when the clock is stepped
     probe_due_from = t0    # start of the current "nothing received, none outstanding" period
     outstanding = None     # (id:str, t_sent) of the TestRequest not yet echoed
     attempted = False      # a probe was due but send_test_req() raised
@@ -665,6 +724,10 @@ def judge(spec, line):
     up = True
     for k, s in enumerate(line):
         t, eff = s["t"], s["eff"]
+        tm = s.get("mono", t)
+        # "the peer had less than X": on BOTH clocks (time.time() and real elapsed time) - a stepped clock must not
+        # turn a peer that really had its time into a victim, nor the other way round
+        within = lambda wall0, mono0, bound: max(t - wall0, tm - mono0) <= bound
         fr = frames(s)
         if not up:
             if eff and s["kind"] == "tick":
@@ -696,20 +759,20 @@ def judge(spec, line):
                     yield ("C12-testreqid-not-time", "TestReqID is not int(time.time())", {"step": k, "id": tid})
                 if t - last_arrival <= H - 1000:
                     yield ("C12-testrequest-early", "TestRequest although a frame arrived less than h - 1 s ago", {"step": k})
-                outstanding = (tid, t)
+                outstanding = (tid, t, tm)
             if disconnected:
                 # liveness by echo: a watchdog disconnect needs a TestRequest unanswered for more than 2h - 1 s
                 if outstanding is None:
                     # legitimate only as "nothing valid for 2h" (e.g. the TestRequest could not be sent)
                     # … or the connection is not ACTIVE (awaiting / serving a resend): it never probes there
-                    if t - last_arrival <= 2 * H or (awaiting is None and not start_stuck and not attempted):
+                    if within(last_arrival, last_arrival_m, 2 * H) or (awaiting is None and not start_stuck and not attempted):
                         yield ("C12-disconnect-nothing-outstanding", "the watchdog disconnected although no TestRequest "
                                "was unanswered", {"step": k, "t": t - t0})
-                elif t - outstanding[1] <= 2 * H - 1000:
+                elif within(outstanding[1], outstanding[2], 2 * H - 1000):
                     yield ("C12-disconnect-before-deadline", "the watchdog disconnected although the TestRequest was sent "
                            f"only {t - outstanding[1]} ms ago (<= 2h - 1 s)", {"step": k})
                 # liveness by traffic (judged separately): a valid frame within the last two intervals
-                if t - last_arrival <= 2 * H:
+                if within(last_arrival, last_arrival_m, 2 * H):
                     yield ("C12-traffic-does-not-answer-testrequest", "the watchdog disconnected a peer whose last valid "
                            f"frame arrived {t - last_arrival} ms ago (<= 2h): inbound traffic must count as a sign of "
                            "life even when a TestRequest stays unanswered (fix e3d9663)", {"step": k, "t": t - t0})
@@ -772,7 +835,7 @@ def judge(spec, line):
                 if reached >= awaiting:
                     awaiting = None
             if up and s["a_post"].state > 3 and accepted:
-                last_arrival = t
+                last_arrival, last_arrival_m = t, tm
                 attempted = False if s["a_post"].test_req_id is None else attempted
                 if not outstanding:
                     probe_due_from = t
